@@ -105,24 +105,17 @@ func (sess *UserSession) Move(w *imapserver.MoveWriter, numSet imap.NumSet, dest
 		destUIDs.AddNum(appendData.UID)
 		expunged[msg] = struct{}{}
 	})
-	seqNums := sess.mailbox.expungeLocked(expunged)
+	// This queues an EXPUNGE update for each removed message on every view of
+	// the mailbox, including ours: they are sent (with sequence numbers
+	// translated for each client) right after the COPYUID data, before the
+	// command completes.
+	sess.mailbox.expungeLocked(expunged)
 
-	err = w.WriteCopyData(&imap.CopyData{
+	return w.WriteCopyData(&imap.CopyData{
 		UIDValidity: dest.uidValidity,
 		SourceUIDs:  sourceUIDs,
 		DestUIDs:    destUIDs,
 	})
-	if err != nil {
-		return err
-	}
-
-	for _, seqNum := range seqNums {
-		if err := w.WriteExpunge(sess.mailbox.tracker.EncodeSeqNum(seqNum)); err != nil {
-			return err
-		}
-	}
-
-	return nil
 }
 
 func (sess *UserSession) Poll(w *imapserver.UpdateWriter, allowExpunge bool) error {
